@@ -325,11 +325,15 @@ CORPUS_POOLS = [
      ("s", (0x800,))],
     [("a", ()), ("a", (("n", 1),)), ("a", (("n", 1), ("n", 2))), ("a", (("n", 1), ("n", 3))), ("a", (("n", 2),)),
      ("a", (("a", ()),)), ("a", (("a", (("n", 1),)), ("a", ()))), ("a", (("a", (("n", 1),)),)),
-     ("a", (("a", (("n", 1), ("n", 0))),))],
+     ("a", (("a", (("n", 1), ("n", 0))),)), ("a", (("n", 2), ("n", 2))), ("a", (("n", 1), ("n", 2), ("n", 3))),
+     ("a", (("n", 2), ("n", 2), ("n", 3)))],
     [("o", ((("a", ":", ("n", 1)),),)), ("o", ((("a", ":", ("n", 1)),), (("b", "::", ("n", 2)),))),
      ("o", ((("a", ":", ("n", 1)),), (("b", ":", ("n", 2)),))), ("o", ((("b", ":", ("n", 2)), ("a", ":", ("n", 1))),)),
      ("o", ((("a", "::", ("n", 1)),), (("a", ":", ("n", 1)),))), ("o", ((("a", "::", ("n", 1)),), (("a", ":::", ("n", 1)),))),
-     ("o", ((),)), ("o", ((("h", "::", ("e",)),),)), ("o", ((("a", ":", ("n", 1)), ("h", "::", ("f",))),))],
+     ("o", ((),)), ("o", ((("h", "::", ("e",)),),)), ("o", ((("a", ":", ("n", 1)), ("h", "::", ("f",))),)),
+     ("o", ((("a", ":", ("n", 9)), ("b", ":", ("n", 2))),)),
+     ("o", ((("a", ":", ("n", 1)), ("b", ":", ("n", 2)), ("c", ":", ("n", 3))),)),
+     ("o", ((("a", ":", ("n", 1)), ("b", ":", ("n", 9)), ("c", ":", ("n", 3))),))],
     [("z",), ("b", True), ("b", False), ("n", 0), ("n", 1), ("s", ()), ("a", ()), ("o", ((),)), ("f",), ("e",),
      ("s", (0x31,)), ("a", (("z",),)), ("a", (("f",),))],
     [("a", (("n", 1), ("e",))), ("a", (("n", 2), ("e",))), ("a", (("n", 1), ("n", 2))), ("a", (("e",), ("n", 1))),
@@ -369,7 +373,7 @@ def unordered_error(a, b):
 def pair_oracle(a, b, r):
     """Direct checks of one answer line of the implementation. Returns a description or None."""
     if r is None:
-        return "malformed answer"
+        return "malformed answer (driver failure)"
     for x in r:
         if x.startswith("X") or x.startswith("panic") or x.startswith("crash") or x == "bad-op":
             return "driver failure: " + x[:80]
@@ -597,6 +601,10 @@ def run(rep):
             rep.bump("eq:" + (r[0] if r[0] in ("true", "false") else "error"))
             rep.bump("cmp:" + (r[7] if toint(r[7]) is not None else r[7].split(":")[0]))
         bad = pair_oracle(a, b, r)
+        if bad and r is None:
+            w = a_out.split(" ")
+            msg = vlib.unhx(w[1]).decode("utf-8", "replace") if (w[0] == "panic" and len(w) > 1) else a_out
+            bad = "the implementation did not answer: " + msg[:160]
         if bad:
             rep.violation("cmp:" + line, bad, {"op": line, "impl": a_out, "a": a, "b": b})
         if mt[0] == "pool":
@@ -633,8 +641,22 @@ def _tup(x):
 
 
 def replay(r):
-    rp = r["replay"]
     vlib.build_harness()
+    if "replay" not in r:
+        # broken proof / model-implementation disagreement record
+        rc = 1 if r.get("broken") else 0
+        for b in r.get("broken", []):
+            print("broken:", b.get("what"))
+        for d in r.get("disagreements", []):
+            line = d["replay"]["case"]["key"]
+            x, y = vlib.impl([line])[0], vlib.model([line])[0]
+            print(line)
+            print("  impl :", x)
+            print("  model:", y)
+            if x != y:
+                rc = 1
+        return rc
+    rp = r["replay"]
     if "values" in rp:
         vs = rp["values"]
         lines = ["cmp all %s %s" % (x, y) for x in vs for y in vs]
